@@ -83,12 +83,35 @@ def cases(draw, tier="quick"):
     opts = {"fw": draw(st.sampled_from(["attrs", "dataclasses"])), "pic": draw(st.sampled_from([True, True, False])),
             "sreg": list(names), "meta": draw(st.booleans()), "dkr": [r"n_\d+"], "dkf": [],
             "max_literals": draw(st.sampled_from([10, 0])), "nested": False, "slots": draw(st.sampled_from([False, False, True]))}
-    return {"samples": samples, "opts": opts}
+    case = {"samples": samples, "opts": opts}
+    if draw(st.integers(0, 3)) == 0:
+        # a second root model over the same keys (other pseudo-types of the same family, null / missing at optional places):
+        # the two models are merged into one class, which has to construct from the samples of both
+        related = {"IntString": ["IntString", "FloatString"], "FloatString": ["FloatString", "IntString"]}
+        other = []
+        for _ in range(draw(st.integers(1, 3))):
+            s = {}
+            for key, t, path, mix in specs:
+                t2 = draw(st.sampled_from(related.get(t, [t])))
+                if draw(st.integers(0, 2)) == 0 and path[0] != "O":
+                    path = ["O"] + list(path)
+                if path[0] == "O" and draw(st.integers(0, 3)) == 0:
+                    continue
+                s[key] = draw(value_for(path, POOLS[t2]))
+            for nk in noise_keys:
+                if nk in samples[0]:
+                    s[nk] = samples[0][nk]          # same incidental keys, so that the key sets are similar enough to merge
+            other.append(s)
+        if any(other):
+            case["other"] = other
+    return case
 
 
 def valid(case):
     from . import c01
     try:
+        if "other" in case and not c01.valid({"samples": case["other"], "opts": case["opts"]}):
+            return False
         return c01.valid(case) and case["opts"].get("fw") in ("attrs", "dataclasses")
     except Exception:  # noqa: BLE001
         return False
@@ -167,7 +190,8 @@ def check(case):
     samples, opts = case["samples"], pl.norm_opts(case["opts"])
     fw, pic = opts["fw"], opts["pic"]
     r.label("fw:" + fw, "converters:" + ("on" if pic else "off"))
-    ok, b = unowned(r, pl.build, samples, opts)
+    other = case.get("other")
+    ok, b = unowned(r, pl.build, samples, opts, "Root", [("Other", other)] if other else None)
     if not ok:
         return r
     ok, src = unowned(r, pl.render, b.reg, opts)
@@ -176,7 +200,15 @@ def check(case):
     v = codeview.load_view(r, b, opts, src, False, own=False)
     if v is None:
         return r
-    root = b.roots[0].type
+    check_root(r, v, b.roots[0].type, samples, fw, pic, src)
+    if other and not r.viol and not r.skip:
+        if b.roots[1].type is b.roots[0].type:
+            r.label("second-root-merged-into-first")
+        check_root(r, v, b.roots[1].type, other, fw, pic, src)
+    return r
+
+
+def check_root(r, v, root, samples, fw, pic, src):
     cls = v.cls_of[root.index]
     fields = oracle.class_fields(cls, fw)
     plan = {}
